@@ -107,19 +107,39 @@ def declarations(mod: str):
     return out
 
 
-def forbidden_tokens() -> list[str]:
+_IMPORT = re.compile(r'^\s*(?:public\s+)?import\s+((?:ForML|Driver)\.[\w.]+)', re.M)
+
+
+def closure(modules: list[str]) -> list[str]:
+    """Transitive imports (within this project) of the given modules."""
+    seen: dict[str, None] = {}
+    todo = list(modules)
+    while todo:
+        m = todo.pop()
+        if m in seen or not os.path.exists(module_path(m)):
+            continue
+        seen[m] = None
+        with open(module_path(m)) as f:
+            todo.extend(_IMPORT.findall(_strip_comments(f.read())))
+    return sorted(seen)
+
+
+def forbidden_tokens(modules: list[str] | None = None) -> list[str]:
+    """Forbidden tokens in the sources the given modules depend on (all project sources when None)."""
+    if modules is None:
+        paths = []
+        for root in ('ForML', 'Driver'):
+            for dp, _, fs in os.walk(os.path.join(LEAN_DIR, root)):
+                paths.extend(os.path.join(dp, fn) for fn in fs if fn.endswith('.lean'))
+    else:
+        paths = [module_path(m) for m in closure(modules)]
     hits = []
-    for root in ('ForML', 'Driver'):
-        for dp, _, fs in os.walk(os.path.join(LEAN_DIR, root)):
-            for fn in fs:
-                if not fn.endswith('.lean'):
-                    continue
-                p = os.path.join(dp, fn)
-                with open(p) as f:
-                    src = _strip_comments(f.read())
-                for ln, line in enumerate(src.split('\n'), 1):
-                    if FORBIDDEN.search(line):
-                        hits.append(f'{os.path.relpath(p, LEAN_DIR)}:{ln}: {line.strip()[:80]}')
+    for p in sorted(paths):
+        with open(p) as f:
+            src = _strip_comments(f.read())
+        for ln, line in enumerate(src.split('\n'), 1):
+            if FORBIDDEN.search(line):
+                hits.append(f'{os.path.relpath(p, LEAN_DIR)}:{ln}: {line.strip()[:80]}')
     return hits
 
 
@@ -143,7 +163,9 @@ def prove(pid: str, modules: list[str], driver: str | None, thorough: bool = Fal
     from .framework import MachineryError
 
     t0 = time.time()
-    hits = forbidden_tokens()
+    drv_mod = ['Driver.' + driver[4:].upper()] if driver and driver.startswith('drv_') else []
+    scanned = closure(list(modules) + drv_mod)
+    hits = forbidden_tokens(list(modules) + drv_mod)
     if hits:
         raise MachineryError('forbidden tokens in Lean sources: ' + '; '.join(hits[:5]))
     theorems = []  # (full name, module, line)
@@ -232,7 +254,7 @@ def prove(pid: str, modules: list[str], driver: str | None, thorough: bool = Fal
         'theorems': [t[0] for t in theorems], 'axioms': used,
         'checker_cmd': 'cd lean && lake build ' + ' '.join(targets) + f' && lake env lean {audit_rel}'
                        + (' && lake env leanchecker ' + ' '.join(modules) if thorough else ''),
-        'stated_unproved': stated_unproved, 'leanchecker': checker, 'lean_wall_s': round(time.time() - t0, 1),
+        'stated_unproved': stated_unproved, 'leanchecker': checker, 'sources_scanned': scanned, 'lean_wall_s': round(time.time() - t0, 1),
     }
 
 
